@@ -48,7 +48,8 @@ def gen(rng, tier, idx):
     syn = {'seed': rng.randrange(2 ** 31), 'density': rng.choice([0.02, 0.1, 0.3, 0.7]),
            'empty_pairs': rng.choice([0.0, 0.2, 0.5]), 'one_sided': rng.choice([0.0, 0.3])}
     cfg = {'n_per_utility': rng.randint(1, 5), 'query_frac': rng.choice([1.0, 0.8, 0.5, 0.2]),
-           'q_seed': rng.randrange(2 ** 31), 'override': rng.random() < 0.4, 'genes_at_a_time': 1}
+           'q_seed': rng.randrange(2 ** 31), 'override': rng.random() < 0.4, 'genes_at_a_time': 1,
+           'warmup_other_target': rng.random() < 0.4}
     ex = [{'n_processors': rng.randint(1, 6), 'behemoth_cutoff': rng.choice([0, 1, 3, 5000000]),
            'sched': common.draw_sched(rng)} for _ in range(2)]
     return {'wp': wp, 'src': src, 'syn': syn, 'cfg': cfg, 'exec': ex, 'kcfg': common.draw_kernel_cfg(rng)}
@@ -147,6 +148,14 @@ def run(scn, sb):
             for parent in tax.all_parents():
                 if r.random() < 0.4:
                     override[parent] = int(r.integers(1, 6))
+        override_spec = None if override is None else dict(override)
+        if override is not None and cfg.get('warmup_other_target'):
+            # a caller re-using ONE override table for several selections with different default targets: an earlier
+            # call (other target, same dict object, result ignored) must not influence the judged ones
+            harness.run_call({'policy': 'fifo', 'seed': 0}, drivers.run_marker_lookup, [refm], list(q_genes),
+                             sb.p('scratch'), n_per_utility=1 if cfg['n_per_utility'] > 1 else cfg['n_per_utility'] + 2,
+                             n_per_utility_override=override, n_processors=2, genes_at_a_time=1)
+            res['probes']['override_table_reused_across_calls'] = 1
         lookups = []
         for ei, ex in enumerate(scn['exec']):
             o, s = harness.run_call(dict(ex['sched']), drivers.run_marker_lookup, [refm], list(q_genes),
@@ -210,8 +219,8 @@ def run(scn, sb):
                                      'marker of any pair the parent must discriminate' % (key, g)})
                         break
                 target = cfg['n_per_utility']
-                if override and parent in override:
-                    target = override[parent]
+                if override_spec and parent in override_spec:
+                    target = override_spec[parent]
                 ss_ = set(sel)
                 for pr in pairs:
                     res['evaluations'] += 1
@@ -233,7 +242,7 @@ def run(scn, sb):
         res['key'] = model.canonical_json({k: v for k, v in scn.items() if k != 'kcfg'})
         res['sample'] = {'source': scn['src'], 'hierarchy': tax.hierarchy, 'leaves': len(tax.leaves),
                          'genes': len(W.genes), 'query_genes': len(q_genes), 'target': cfg['n_per_utility'],
-                         'override': {str(k): v for k, v in (override or {}).items()},
+                         'override': {str(k): v for k, v in (override_spec or {}).items()},
                          'selected': {k: len(v) for k, v in (lookups[0] if lookups else {}).items()}}
         res['ticks'] = KERNEL.n_ticks
         return res
